@@ -103,10 +103,12 @@ func (s *sessions) delete(session SessionID) {
 	delete(s.known, session)
 }
 
-// close will stop all prom timers, it's the only reason we have this
+// close will stop all prom timers and account for the sessions that were still
+// waiting for a continuation when the connection went away
 func (s *sessions) close() {
 	for _, r := range s.known {
 		r.timer.ObserveDuration()
+		sessionsActive.Dec()
 	}
 }
 
